@@ -33,6 +33,7 @@ structure Tot where
   amaxAlt : Nat := 0
   updWrite : Bool := false       -- some message guarantees a non-empty update
   updReq : Bool := false         -- some message was a FramebufferUpdateRequest
+  cb : Nat := 0                  -- application callbacks
   deriving Repr
 
 inductive Status where
@@ -40,6 +41,10 @@ inductive Status where
   | closed
   | unknown
   deriving Repr
+
+def Status.isClosed : Status → Bool
+  | .closed => true
+  | _ => false
 
 /-- the timeout `rfbReadExact` / `rfbWriteExact` use -/
 def clientWait (cfg : Cfg) : Nat := if cfg.wait = 0 then defaultClientWait else cfg.wait
@@ -64,8 +69,9 @@ def run (cfg : Cfg) (m : Mode) : Nat → Conn → List UInt8 → Tot → Status 
     | _ :: _ =>
       let r := handle cfg c inp
       let t1 := { t with n := t.n + 1, amax := max t.amax r.alloc, amaxAlt := max t.amaxAlt r.allocAlt,
-                         updWrite := t.updWrite || r.updWrite, updReq := t.updReq || r.updReq }
-      if r.wrote && m.eof then (.closed, t1)                   -- EPIPE
+                         updWrite := t.updWrite || r.updWrite, updReq := t.updReq || r.updReq, cb := t.cb + r.cb }
+      if r.wroteMaybe && (m.eof || m.stopread) then (.unknown, t1)
+      else if r.wrote && m.eof then (.closed, t1)              -- EPIPE
       else if r.wrote && m.stopread then (.closed, writeBlocked cfg t1)
       else match r.out with
         | .cont => run cfg m fuel r.conn r.rest t1
@@ -76,5 +82,24 @@ def run (cfg : Cfg) (m : Mode) : Nat → Conn → List UInt8 → Tot → Status 
 /-- a whole `send`: enough fuel for every byte to start a round, plus the end-of-file round -/
 def runSend (cfg : Cfg) (m : Mode) (c : Conn) (inp : List UInt8) : Status × Tot :=
   run cfg m (inp.length + 1) c inp {}
+
+
+/-! ## several connections
+
+The screen's clients as an association list.  An operation on client `i` rewrites entry `i` only
+(`AList.set`); nothing in `run` reads another client's entry. -/
+
+abbrev AList (α : Type) := List (Nat × α)
+
+def AList.get {α : Type} (s : AList α) (i : Nat) : Option α := (s.find? (fun p => p.1 == i)).map (·.2)
+
+def AList.set {α : Type} (s : AList α) (i : Nat) (v : α) : AList α :=
+  (i, v) :: s.filter (fun p => p.1 != i)
+
+/-- deliver `bytes` to connection `i` of a screen -/
+def deliver (cfg : Cfg) (m : Mode) (s : AList Status) (i : Nat) (bytes : List UInt8) : AList Status :=
+  match s.get i with
+  | some (.isOpen c) => s.set i (runSend cfg m c bytes).1
+  | _ => s
 
 end VncModel.Robust
